@@ -590,14 +590,26 @@ def run(res):
         "set_offset, embed_const_pool, comment and logging are not exercised",
         "'without undefined behaviour' = no ASan/UBSan report on the explored calls (tested, not proved)"]
     broken = []
-    names = {}
+    R = vlib.REPO
     try:
-        generate()
-        names = gen_c14.error_enum(vlib.REPO)
-        forms_by_arch = {a: gen_c14.forms(vlib.REPO, a) for a in ("x86", "a64")}
+        names = gen_c14.error_enum(R)
+        vlib.gen_write("AsmjitVerif/Gen/ErrorCodes.lean", gen_c14.render_error_codes(names))
+        forms_by_arch = {a: gen_c14.forms(R, a) for a in ("x86", "a64")}
     except gen_c14.TranslateError as e:
         res.violation("translator tools/gen_c14.py no longer understands the sources: %s" % e, {"unchecked": str(e)}, False, key="obligation")
         return
+    # the two structural translators: when one no longer understands the source the obligation is broken (an empty table makes the
+    # Lean non-emptiness theorem fail), but the dynamic stage below still runs and looks for a concrete failing input
+    try:
+        vlib.gen_write("AsmjitVerif/Gen/EmitSites.lean", gen_c14.render_emit_sites(gen_c14.emit_sites(R)))
+    except gen_c14.TranslateError as e:
+        broken.append("translator emit_sites: %s" % e)
+        vlib.gen_write("AsmjitVerif/Gen/EmitSites.lean", gen_c14.render_emit_sites([]))
+    try:
+        vlib.gen_write("AsmjitVerif/Gen/TableBounds.lean", gen_c14.render_tables(gen_c14.tables(R)))
+    except gen_c14.TranslateError as e:
+        broken.append("translator tables: %s" % e)
+        vlib.gen_write("AsmjitVerif/Gen/TableBounds.lean", gen_c14.render_tables([("untranslatable", 0, 0)]))
 
     ok, out = vlib.lean_stage(res, PID, MODS)
     if not ok and not res.violations:
@@ -647,7 +659,7 @@ def run(res):
                       {"ops": ops, "stderr": tail[-2500:]}, found_input=True, key="abort:%s:%s" % (ops[0].split()[1], w[0]))
         # the rest of the evidence cannot be gathered in this run
         if broken:
-            res.notes.append("also: " + " | ".join(broken)[:800])
+            res.violation("proof obligation no longer checks: " + " | ".join(broken)[:1500], {"unchecked": broken}, False, key="obligation")
         return
     if r["protocol"]:
         res.violation(r["protocol"], {}, found_input=False, key="protocol")
@@ -706,22 +718,15 @@ def run(res):
                       "fresh = differs from an emitter that only saw the accepted calls)" % (
                           sess[0], flat[i], errname(names, d["ret"]), d["handled"], v),
                       {"ops": ops, "monitor": v, "answer": impl[i][:600]}, found_input=True, key=key)
-    if not r["bad"] and r["diffs"]:
+    if r["diffs"]:
         i, got, exp = r["diffs"][0]
         si, oi = owner[i]
         res.violation("correspondence model/implementation differs at call %r of session %r: model=%s impl=%s (%d differing sessions); the "
-                      "monitor is good on every explored call" % (flat[i], sessions[si][0], got, exp, len(r["diffs"])),
+                      "monitor is good on every call of these sessions" % (flat[i], sessions[si][0], got, exp, len(r["diffs"])),
                       {"ops": sessions[si][:oi + 1], "model": got, "impl": exp, "unchecked": "correspondence Model/Emitter.lean ~ assembler.cpp/codeholder.cpp"},
                       False, key="corr")
-    elif r["diffs"]:
-        res.notes.append("%d sessions also differ between model and implementation (first: %r)" % (len(r["diffs"]), flat[r["diffs"][0][0]]))
     if broken:
-        # an obligation that no longer checks: name it; a concrete failing input (if any) was reported above
-        if not any(v["found_input"] for v in res.violations):
-            res.violation("proof obligation no longer checks: " + " | ".join(broken)[:1500], {"unchecked": broken}, False, key="obligation")
-        else:
-            res.notes.append("also: " + " | ".join(broken)[:1200])
-
+        res.violation("proof obligation no longer checks: " + " | ".join(broken)[:1500], {"unchecked": broken}, False, key="obligation")
 
 def replay(data):
     ops = data["replay"].get("ops", [])
